@@ -22,7 +22,7 @@ EXPLANATION = ("The recursive layers (translate, compile_, execute_) are out of 
 ASSUMPTIONS = [
     "interpreter arms are verified as wrapped functions (R-arm): the arm's statements are the repository's, the dispatch `match instr` and the surrounding loop are not under contract; `alloc(..)` is assumed to build a data value whose fields are the given slice in order",
     "short-circuit blocks: Compiler::compile on the operands is ASSUMED to append code only, leave one value on the static stack and keep functions below 2^30 instructions; a ghost log records the tail flag it is called with",
-    "binop: operand decoding (Getable::from_value) is an uninterpreted function of the stack value; binop_int/byte/f64/bool (the None -> \"Arithmetic overflow\" mapping and result tagging) are closures around it and are not under contract",
+    "binop: operand decoding (Getable::from_value) is an uninterpreted function of the stack value; binop_f64 is not extracted (its closure has no block body); the closures of binop_int/byte/bool get their specification by R-ghost and `Ok(V(f(l,r).ok_or_else(..)?))` is desugared to a match (R-map)",
     "MultiplyInt: reference is i64::checked_mul of core (64x64 multiplier equivalence against a 128-bit product is intractable for SAT); MultiplyByte is checked against the 16-bit product",
     "DivideInt: reference is the language's truncating `/` on i64 where defined (a 128-bit divider is intractable for SAT); DivideByte is checked against the 32-bit quotient",
     "float arms: reference is the IEEE operator of the Rust language (bit equality, NaN = NaN)",
@@ -181,6 +181,9 @@ def obligations(tier):
         v("stack", "arm::Push", "variable access: Push(i) pushes a copy of slot i of the CURRENT frame (+1); an out-of-range slot is an error value", T + "Push"),
         v("stack", "StackFrame::deref", "a frame dereferences to exactly its own slots", "vm/src/stack.rs::<StackFrame as Deref>::deref"),
         v("stack", "binop", "every binary instruction: LEFT operand = the value below the top, RIGHT = the top; on success both are replaced by the single result of op(left, right); on failure (overflow, division by zero) the stack is left as it was", "vm/src/thread.rs::binop"),
+        v("stack", "binop_int", "integer instructions: Some(x) replaces the operands by the integer x; None (overflow, division by zero) is a runtime failure with the stack untouched -- never a wrapped value", "vm/src/thread.rs::binop_int"),
+        v("stack", "binop_byte", "byte instructions: likewise", "vm/src/thread.rs::binop_byte"),
+        v("stack", "binop_bool", "comparisons never fail and replace their operands by True (tag 1) exactly when the relation holds, else False (tag 0)", "vm/src/thread.rs::binop_bool"),
         v("stack", "StackFrame::index_from", "frame[start..] is the frame view from start", "vm/src/stack.rs::<StackFrame as Index<RangeFrom<VmIndex>>>::index"),
     ]
     obs += [
